@@ -168,4 +168,22 @@ theorem isStandardFormat_iff (df : Bool) (cols : List String) :
       df = true ∧ ∃ c ∈ cols, c ∈ ["TRAV", "CDR3A", "TRAJ", "TRBV", "CDR3B", "TRBJ"] := by
   simp only [isStandardFormat, Bool.and_eq_true, List.any_eq_true, List.contains_iff_mem]
 
+/-! ### names used in the source for the scopes and the constructor parameters -/
+
+def chainOfName : String → Option ChainScope
+  | "PAIRED" => some .paired | "ALPHA" => some .alpha | "BETA" => some .beta | _ => none
+
+def cdrOfName : String → Option CdrScope
+  | "ALL" => some .all | "CDR3" => some .cdr3 | _ => none
+
+/-- the constructor parameters a class of the given scopes exposes: the three edit weights, the chain weights when both chains are
+compared, the CDR weights when all CDRs are compared -/
+def expectedParams (cs : Option ChainScope) (ds : Option CdrScope) : List String :=
+  ["insertion_weight", "deletion_weight", "substitution_weight"]
+    ++ (if cs = some .paired then ["alpha_weight", "beta_weight"] else [])
+    ++ (if ds = some .all then ["cdr1_weight", "cdr2_weight", "cdr3_weight"] else [])
+
+/-- same names, in any order -/
+def sameNames (a b : List String) : Bool := a.all b.contains && b.all a.contains && a.length == b.length
+
 end Prs
